@@ -14,7 +14,7 @@ func (m *Machine) intVal(v int64) *Term {
 func (m *Machine) callBuiltin(caller *frame, fn *ssa.Builtin, args []value) value {
 	switch fn.Name() {
 	case "append":
-		return m.appendBuiltin(args[0].(Slice), args[1], fn)
+		return m.appendBuiltin(args[0].(Slice), args[1], fn, caller != nil && isHarnessFunc(caller.fn))
 	case "copy":
 		dst := args[0].(Slice)
 		var n int
@@ -181,6 +181,12 @@ func (m *Machine) callBuiltin(caller *frame, fn *ssa.Builtin, args []value) valu
 			return Ptr{obj: s.obj, arr: full}
 		}
 		return Ptr{obj: s.obj, p: &full[0], arr: full}
+	case "Sizeof":
+		t := fn.Type().(*types.Signature).Params().At(0).Type()
+		return m.intConst(types.Typ[types.Uintptr], uint64(m.P.Sizes.Sizeof(t)))
+	case "Alignof":
+		t := fn.Type().(*types.Signature).Params().At(0).Type()
+		return m.intConst(types.Typ[types.Uintptr], uint64(m.P.Sizes.Alignof(t)))
 	case "Add":
 		m.unsupported("unsafe.Add")
 	}
@@ -231,7 +237,7 @@ func (m *Machine) minmax(isMin bool, t types.Type, a, b value) value {
 // appendBuiltin implements append(s, t...).  Growth gives a nondeterministic
 // amount of spare capacity (0..AppendSpare) so that aliasing through spare
 // capacity is visible whatever the run time's growth policy is.
-func (m *Machine) appendBuiltin(s Slice, tv value, fn *ssa.Builtin) value {
+func (m *Machine) appendBuiltin(s Slice, tv value, fn *ssa.Builtin, inHarness bool) value {
 	var add []value
 	switch t := tv.(type) {
 	case Slice:
@@ -262,7 +268,7 @@ func (m *Machine) appendBuiltin(s Slice, tv value, fn *ssa.Builtin) value {
 		return Slice{obj: s.obj, a: out}
 	}
 	spare := 0
-	if m.Opts.AppendSpare > 0 && m.initing == 0 {
+	if m.Opts.AppendSpare > 0 && m.initing == 0 && !inHarness {
 		spare = m.choice(m.Opts.AppendSpare+1, "append spare capacity")
 	}
 	na := make([]value, n, n+spare)
@@ -286,3 +292,25 @@ func (m *Machine) appendBuiltin(s Slice, tv value, fn *ssa.Builtin) value {
 
 // deferStack designates the defer stack of a frame (ssa:deferstack).
 type deferStack struct{ fr *frame }
+
+// isHarnessFunc reports whether fn belongs to a harness file (names Verif*,
+// cNN*, verif*), including closures defined in such functions.
+func isHarnessFunc(fn *ssa.Function) bool {
+	for fn.Parent() != nil {
+		fn = fn.Parent()
+	}
+	n := fn.Name()
+	if recv := fn.Signature.Recv(); recv != nil {
+		t := recv.Type()
+		if p, ok := t.(*types.Pointer); ok {
+			t = p.Elem()
+		}
+		if nt, ok := t.(*types.Named); ok {
+			n = nt.Obj().Name()
+		}
+	}
+	if len(n) >= 5 && (n[:5] == "Verif" || n[:5] == "verif") {
+		return true
+	}
+	return len(n) >= 3 && n[0] == 'c' && n[1] >= '0' && n[1] <= '9' && n[2] >= '0' && n[2] <= '9'
+}
